@@ -146,6 +146,16 @@ impl<'a> G<'a> {
                         enc.push(raw[y * row + x].wrapping_sub(up));
                     }
                 }
+                // hostile but syntactically fine data: other row tags (the bytes then decode to something
+                // else, which is nobody's business here), and a last row cut short by 1..row bytes
+                if self.rng.chance(1, 3) {
+                    for y in 0..h { enc[y * (row + 1)] = self.rng.below(6) as u8; }
+                }
+                if self.rng.chance(1, 3) {
+                    let cut = 1 + self.rng.usize(row.max(1));
+                    let keep = enc.len().saturating_sub(cut);
+                    enc.truncate(keep);
+                }
                 stream_body(&format!("/Type /XObject /Subtype /Image /Width {} /Height {} /ColorSpace {} /BitsPerComponent {} /Filter /FlateDecode /DecodeParms << /Predictor 12 /Colors {} /Columns {} /BitsPerComponent {} >>", w, h, cs, bpc, comps, w, bpc), &zlib(&enc))
             }
             1 => stream_body(&format!("/Type /XObject /Subtype /Image /Width {} /Height {} /ColorSpace {} /BitsPerComponent {} /Filter /FlateDecode", w, h, cs, bpc), &zlib(&raw)),
@@ -382,7 +392,8 @@ pub fn a85(data: &[u8]) -> Vec<u8> {
 /// One generated document. `style`: 0 classic table, 1 cross-reference stream, 2 stream + object streams.
 pub fn gen_document(rng: &mut Rng) -> Doc {
     let style = rng.below(3);
-    let prefix_len = if rng.chance(1, 5) { rng.usize(30) } else { 0 };
+    let prefix_max = if rng.chance(1, 4) { 900 } else { 40 };
+    let prefix_len = if rng.chance(1, 3) { 1 + rng.usize(prefix_max) } else { 0 };
     let prefix: Vec<u8> = (0..prefix_len).map(|_| b"junk \n\r0123"[rng.usize(10)]).collect();
     let mut g = G { rng, next: 1, objs: vec![], page_ids: vec![] };
     let catalog = g.alloc();
@@ -398,6 +409,7 @@ pub fn gen_document(rng: &mut Rng) -> Doc {
     let n_objs = g.next;
     let objs = std::mem::take(&mut g.objs);
     let desc = format!("style={} pages={} objects={} prefix={}", style, n_pages, n_objs, prefix_len);
+    let _ = &desc;
     let rng = g.rng;
     let mut w = PdfWriter::new(&prefix, "1.7");
     w.free(0, 0, 65535);
@@ -414,12 +426,35 @@ pub fn gen_document(rng: &mut Rng) -> Doc {
     } else {
         for (id, b) in &objs { w.object(*id, 0, b); }
     }
-    let trailer = format!("/Root {} 0 R /Info {} 0 R /ID [<0102030405060708090a0b0c0d0e0f10> <0102030405060708090a0b0c0d0e0f10>]", catalog, info);
-    if style == 0 {
-        w.finish(XrefFormat::Classic, next, &trailer, &[], 0);
-    } else {
-        let x = next; next += 1;
-        w.finish(XrefFormat::Stream, next, &trailer, &[], x);
+    // `/PadPrev 0000000000` is an unknown trailer entry of the same length as `/Prev 0000000000`: patched below
+    // when a loop of sections is wanted
+    let trailer = format!("/Root {} 0 R /Info {} 0 R /ID [<0102030405060708090a0b0c0d0e0f10> <0102030405060708090a0b0c0d0e0f10>] /PadPrev 0000000000", catalog, info);
+    let revisions = 1 + rng.below(3);
+    let mut xoffs = vec![];
+    for rev in 0..revisions {
+        if rev > 0 {
+            // an incremental update: the information dictionary is rewritten
+            w.object(info, 0, format!("<< /Title (Generated, revision {}) /Producer (pdfverif) >>", rev).as_bytes());
+        }
+        let fmt_stream = if rev == 0 { style != 0 } else { rng.chance(1, 2) || style == 2 };
+        if !fmt_stream {
+            xoffs.push(w.finish(XrefFormat::Classic, next, &trailer, &[], 0));
+        } else {
+            let x = next; next += 1;
+            xoffs.push(w.finish(XrefFormat::Stream, next, &trailer, &[], x));
+        }
     }
-    Doc { bytes: w.out, n_pages, desc, objects: next }
+    let mut bytes = w.out;
+    let mut desc = format!("{} revisions={}", desc, revisions);
+    if rng.chance(1, 6) {
+        // a loop in the chain of sections: the oldest section (which has no /Prev) points at some section
+        let target = *rng.pick(&xoffs);
+        let pat = b"/PadPrev 0000000000";
+        if let Some(i) = bytes.windows(pat.len()).position(|w| w == pat) {
+            let rep = format!("/Prev {:013}", target);   // same length as the pattern
+            bytes[i..i + pat.len()].copy_from_slice(rep.as_bytes());
+            desc.push_str(" prev-loop");
+        }
+    }
+    Doc { bytes, n_pages, desc, objects: next }
 }
